@@ -246,7 +246,7 @@ def _snap_diff(s0, s1):
         return "wires", s1["wires"], s0["wires"]
     if len(s0["data"]) != len(s1["data"]) or not all(_leaf_eq(x, y) for x, y in zip(s0["data"], s1["data"])):
         return "data", [x.tolist() for x in s1["data"]][:4], [x.tolist() for x in s0["data"]][:4]
-    if (s0["matrix"] is None) != (s1["matrix"] is None) or (s0["matrix"] is not None and not np.array_equal(s0["matrix"], s1["matrix"])):
+    if (s0["matrix"] is None) != (s1["matrix"] is None) or (s0["matrix"] is not None and not np.array_equal(s0["matrix"], s1["matrix"], equal_nan=True)):
         return "matrix", s1["matrix"], s0["matrix"]
     return None
 
@@ -354,8 +354,15 @@ def check(spec):
             return bad(f"capture:raises:{type(e).__name__}:{lab}", f"{type(e).__name__}: {e}"[:300], "one bound object")
         if len(objs) != 1:
             return bad(f"capture:count:{lab}", [repr(x)[:80] for x in objs][:6], "exactly one object equal to the original")
-        v = compare(a, objs[0], lab, "capture", jaxy=True)
-        return v or ok(outcome=fp + [type(objs[0]).__name__], nontrivial=True)
+        b = objs[0]
+        inner = getattr(getattr(a, "base", None), "base", None)
+        if type(a).__name__.startswith("Adjoint") and type(getattr(a, "base", None)).__name__.startswith("Adjoint") and type(b) is type(inner):
+            return bad("capture:type-changed:adjoint-of-adjoint-collapsed", repr(b)[:200], repr(a)[:200])
+        ww = getattr(a, "work_wires", None)
+        if ww is not None and len(ww) and type(b) is type(a) and len(getattr(b, "work_wires", None) or ()) == 0 and list(a.wires)[:len(b.wires)] == list(b.wires):
+            return bad("capture:controlled-work-wires-dropped", repr(b)[:200], repr(a)[:200], op=lab)
+        v = compare(a, b, lab, "capture", jaxy=True)
+        return v or ok(outcome=fp + [type(b).__name__], nontrivial=True)
     if rt == "isolate":
         s0 = _snapshot(a)
         try:
@@ -404,6 +411,8 @@ def check(spec):
     lb = [np.asarray(d) for d in b.data]
     if rt != "bind-same" and o["k"] == "cat" and any(k in o["g"].get("kw", {}) for k in ("normalize", "pad_with")):
         return skip("rebinding:constructor-normalises-or-pads-its-parameter(documented)")
+    if (len(lb) != len(new) or not all(_leaf_eq(x, y) for x, y in zip(lb, new))) and _only_cob_reversals(f0, _hp_fingerprint(b)) == "reversed":
+        return bad("bind_new_parameters:ChangeOpBasis-operands-reversed", [np.asarray(x).tolist() for x in lb][:4], [np.asarray(x).tolist() for x in new][:4], rt=rt)
     if len(lb) != len(new) or not all(_leaf_eq(x, y) for x, y in zip(lb, new)):
         return bad(f"{rt}:parameters-not-the-new-ones:{lab}", [np.asarray(x).tolist() for x in lb][:4], [np.asarray(x).tolist() for x in new][:4])
     if list(b.wires) != list(a.wires):
